@@ -225,6 +225,142 @@ def gen(rng, tier):
         yield Case("ev2dec", ["auto", "any", tx(ph), oracle_for(ph)], "v2-prefix-" + ("type" if pre in ("01", "100", "101", "102") else "none"))
 
 
+class _cpu_limit:
+    """promptness guard counted in CPU time of this process (ITIMER_VIRTUAL), so that what fits in it does not depend on the load of the
+    machine: raises harness.core.Hang (a BaseException: library `except` clauses do not swallow it) inside the running call"""
+
+    def __init__(self, sec):
+        self.sec = sec
+
+    def _fire(self, signum, frame):
+        from harness.core import Hang
+        raise Hang()
+
+    def __enter__(self):
+        import signal, threading
+        self.on = threading.current_thread() is threading.main_thread()
+        if self.on:
+            self.old = signal.signal(signal.SIGVTALRM, self._fire)
+            signal.setitimer(signal.ITIMER_VIRTUAL, self.sec)
+        return self
+
+    def __exit__(self, *a):
+        import signal
+        if self.on:
+            signal.setitimer(signal.ITIMER_VIRTUAL, 0)
+            signal.signal(signal.SIGVTALRM, self.old)
+        return False
+
+
+def _v2_generator_boundaries(rng, tier, rep):
+    """ElectrumV2MnemonicGenerator.FromEntropy takes the given entropy as the start of an upward search for a value whose phrase carries the
+    version prefix.  Near 2^132 / 2^264 the search runs out of 12-/24-word values (and below 2^121 / 2^253 it has none to start from).
+    Whatever the generator returns is a phrase of the scheme: 12 words for a start of at most 132 bits (24 for 264), accepted by the
+    validator and the decoder of the same type, and canonical (re-encoding the decoded entropy reproduces it).  Refusing is always allowed.
+    A refusing search is long (10^6 attempts), so in the quick tier a call is given a fixed CPU budget and no answer counts as no answer."""
+    from harness.core import Hang
+    from bip_utils import ElectrumV2MnemonicGenerator, ElectrumV2MnemonicValidator
+    n = 0
+    if tier == "quick":
+        combos = [("STANDARD", "ENGLISH", 132), ("STANDARD", V2_LANGS[rng.randrange(len(V2_LANGS))], 264)]
+    else:
+        combos = [(t, V2_LANGS[(i + j) % len(V2_LANGS)], b) for i, t in enumerate(V2_TYPES) for j, b in enumerate((132, 264))]
+    for t, lang, bits in combos:
+        T, L = ElectrumV2MnemonicTypes[t], ElectrumV2Languages[lang]
+        top = 1 << bits
+        starts = [top - 1 - rng.randrange(3)]                                              # (almost) nothing left below the boundary
+        if tier == "thorough":
+            starts += [top - 1, top - 2 - rng.randrange(60)]
+        if t == "STANDARD":                                                                # 1 value in 256 carries the 2-digit prefix: quick searches
+            starts += [top - 2500 - rng.randrange(3000), (1 << (bits - 11)), (1 << (bits - 11)) - 1 - rng.randrange(50), (1 << (bits - 1)) + rng.getrandbits(bits - 2)]
+        for start in starts:
+            n += 1
+            raw = start.to_bytes((start.bit_length() + 7) // 8, "big")
+            inp = "ElectrumV2MnemonicGenerator(%s, %s).FromEntropy(%s)  [2^%d - %d]" % (t, lang, raw.hex(), bits, top - start)
+            try:
+                with _cpu_limit(0.8 if tier == "quick" else 600):
+                    m = ElectrumV2MnemonicGenerator(T, L).FromEntropy(raw)
+                    phrase, count = m.ToStr(), m.WordsCount()
+            except ValueError:
+                continue
+            except Hang:
+                continue
+            legal = 12 if bits == 132 else 24
+            if count != legal:
+                rep("Electrum v2 generator emits a phrase of %d words for a start value of at most %d bits" % (count, bits), inp, phrase, "%d words or refusal" % legal)
+                continue
+            if not ElectrumV2MnemonicValidator(T, L).IsValid(phrase):
+                rep("Electrum v2 generator emits a phrase its own validator rejects", inp, phrase, "an accepted phrase or refusal")
+                continue
+            try:
+                back = ElectrumV2MnemonicDecoder(T, L).Decode(phrase)
+                again = ElectrumV2MnemonicEncoder(T, L).Encode(back).ToStr()
+            except ValueError as ex:
+                again = type(ex).__name__
+            if again != phrase:
+                rep("Electrum v2 generator emits a phrase that is not canonical (decode, then encode, does not reproduce it)", inp, again, phrase)
+    return n
+
+
+def _first_use(rng, tier, rep):
+    """decoding is a function of (language, phrase) also when it is the first thing several threads do with a word list at the same moment
+    (fresh interpreter; the list never loaded, or loaded by an encoder / a decoder constructor but never searched): Monero in its ten
+    languages, Electrum v2 in its four, Electrum v1, Algorand.  References: the entropies the phrases were encoded from."""
+    from harness.props.mnemonic_common import first_use_concurrently, task
+    from bip_utils import AlgorandLanguages
+    n = 0
+    for run in range(1 if tier == "quick" else 6):
+        plan = []                 # (label, before, [(task, want)])
+        for lang in MONERO_LANGS:
+            L = MoneroLanguages[lang]
+            enc = MoneroMnemonicEncoder(L)
+            before = [[], [task("MoneroMnemonicEncoder", [L], "EncodeWithChecksum", bytes(16))], [task("MoneroMnemonicDecoder", [L])]][rng.randrange(3)]
+            tw = []
+            for i in range(10):
+                ent = b"\xff" * (16, 32)[i] if i < 2 else bytes(rng.randrange(256) for _ in range(rng.choice([16, 32])))
+                ph = (enc.EncodeWithChecksum(ent) if i % 2 else enc.EncodeNoChecksum(ent)).ToStr()
+                lg = L
+                if i % 4 == 3:      # auto-detection, where this process (single-threaded, lists long in use) attributes the phrase to its language
+                    try:
+                        lg = None if MoneroMnemonicDecoder().Decode(ph) == ent else L
+                    except ValueError:
+                        lg = L
+                if i % 3 == 2:
+                    tw.append((task("MoneroMnemonicValidator", [lg], "IsValid", ph), "True"))
+                else:
+                    tw.append((task("MoneroMnemonicDecoder", [lg], "Decode", ph), ent.hex()))
+            plan.append(("Monero " + lang, before, tw))
+        for k, lang in enumerate(V2_LANGS if run % 2 == 0 else V2_LANGS[::-1]):
+            L = ElectrumV2Languages[lang]
+            tw = []
+            e, ph = v2_valid_entropy(rng, 132 if tier == "quick" else (132, 264)[run % 2], "STANDARD", lang)      # (one search per language: it is the threads that matter)
+            for i in range(6):
+                if ph is not None:
+                    tw.append((task("ElectrumV2MnemonicDecoder", [ElectrumV2MnemonicTypes.STANDARD if i % 2 else None, L if i % 3 else None], "Decode", ph), e.hex()))
+            if tw:
+                plan.append(("Electrum v2 " + lang, [[], [task("ElectrumV2MnemonicDecoder", [None, L])]][k % 2], tw))
+        tw = []
+        for i in range(8):
+            ent = b"\xff" * 16 if i == 0 else bytes(rng.randrange(256) for _ in range(16))
+            tw.append((task("ElectrumV1MnemonicDecoder", [], "Decode", ElectrumV1MnemonicEncoder().Encode(ent).ToStr()), ent.hex()))
+        plan.append(("Electrum v1", [], tw))
+        tw = []
+        for i in range(8):
+            ent = b"\xff" * 32 if i == 0 else bytes(rng.randrange(256) for _ in range(32))
+            tw.append((task("AlgorandMnemonicDecoder", [AlgorandLanguages.ENGLISH if i % 2 else None], "Decode", AlgorandMnemonicEncoder().Encode(ent).ToStr()), ent.hex()))
+        plan.append(("Algorand", [], tw))
+        if run % 2:
+            plan = plan[::-1]
+        rounds = [{"before": before, "tasks": [t for t, _w in tw], "stagger": rng.choice([0, 40, 150, 600])} for _label, before, tw in plan]
+        for (label, before, tw), res in zip(plan, first_use_concurrently(rounds)):
+            for (t, w), (got, detail) in zip(tw + [(b_, "no exception") for b_ in before], res):
+                n += 1
+                if got != w:
+                    rep("a valid %s phrase is not decoded to its entropy when %d threads use the word list for the first time at the same moment "
+                        "(fresh interpreter; %s.%s)" % (label, len(tw), t["cls"], t["meth"]), t["arg"][1] if t["arg"] else "", (got + " " + detail).strip(), w)
+    return n
+
+
 def relations(rng, tier, rpt):
     """decode(encode(e)) == e and canonicity (encode(decode(phrase)) == phrase for accepted phrases) on the implementation."""
     bad = []
@@ -234,6 +370,10 @@ def relations(rng, tier, rpt):
         bad.append({"property": "C17", "entry_point": what, "request_lines": [], "relation": what, "input": inp,
                     "impl_output": got, "model_output": want, "no_failing_input": False})
 
+    from harness.props.accessors_common import generators_valid
+    for what, inp, got, want in generators_valid():      # random-entropy generators: right length, accepted by their own validator
+        if not what.startswith("Bip39"):
+            rep(what, inp, got, want)
     words = mon_words("ENGLISH")
     dec = MoneroMnemonicDecoder(MoneroLanguages.ENGLISH)
     enc = MoneroMnemonicEncoder(MoneroLanguages.ENGLISH)
@@ -324,6 +464,8 @@ def relations(rng, tier, rpt):
             bad[-1]["finding_id"] = "F-v2-noncanon"
     except ValueError:
         pass
+    rpt.extra["v2_generator_boundary_checks"] = _v2_generator_boundaries(rng, tier, rep)
+    rpt.extra["first_use_concurrent_observations"] = _first_use(rng, tier, rep)
     rpt.extra["impl_relation_checks"] = n
     return bad[:8]
 
